@@ -79,6 +79,12 @@ struct parquet_schema_element {
     /* Field 10: logicalType (modern logical type) */
     bool has_logical_type;
     carquet_logical_type_t logical_type;
+
+    /* Computed when a schema is built (not part of the Thrift encoding):
+     * number of optional/repeated resp. repeated nodes on the path from the
+     * root to this node, itself included */
+    int16_t max_def_level;
+    int16_t max_rep_level;
 };
 
 /* ============================================================================
